@@ -731,14 +731,19 @@ func bDFS(n *bNode, depth int, c *ctx) {
 }
 
 func familyB(firsts []int64, depth int) {
+	// one job per (first height, 2-block prefix); a prefix state is checked/counted only by the job whose remaining
+	// prefix is all zeros, so every state of the chain tree is checked exactly once
 	type job struct {
-		first int64
-		c     byte
+		first  int64
+		prefix []byte
 	}
 	var jobs []job
+	nb := byte(len(bNames))
 	for _, f := range firsts {
-		for c := byte(0); c < byte(len(bNames)); c++ {
-			jobs = append(jobs, job{f, c})
+		for c1 := byte(0); c1 < nb; c1++ {
+			for c2 := byte(0); c2 < nb; c2++ {
+				jobs = append(jobs, job{f, []byte{c1, c2}})
+			}
 		}
 	}
 	var done atomic.Int64
@@ -747,20 +752,37 @@ func familyB(firsts []int64, depth int) {
 		c := &ctx{where: fmt.Sprintf("B:first-height=%d", j.first)}
 		n := &bNode{db: memdb.NewMemDB(), first: j.first}
 		n.bs = store.NewBlockStore(n.db)
-		if j.c == 0 {
-			nStates.Add(1)
-			n.check(c)
-			n.negative(c)
+		restZero := func(k int) bool {
+			for _, x := range j.prefix[k:] {
+				if x != 0 {
+					return false
+				}
+			}
+			return true
 		}
-		nb := n.next(j.c)
-		n.trace = append(n.trace, j.c)
-		if rec := vk.Catch(func() { n.bs.SaveBlock(nb.block, nb.parts, nb.seen) }); rec != nil {
-			viol(c, "valid-save-panicked", bTrace(n.first, n.trace), "%v", rec)
-			return
+		for k := 0; k < len(j.prefix) && !c.stop(); k++ {
+			if restZero(k) {
+				nStates.Add(1)
+				r.Distinct("B|" + dbDigest(n.db))
+				if !n.check(c) || !n.negative(c) {
+					break
+				}
+			}
+			blk := n.next(j.prefix[k])
+			n.trace = append(n.trace, j.prefix[k])
+			if rec := vk.Catch(func() { n.bs.SaveBlock(blk.block, blk.parts, blk.seen) }); rec != nil {
+				viol(c, "valid-save-panicked", bTrace(n.first, n.trace), "%v", rec)
+				break
+			}
+			n.blocks = append(n.blocks, blk)
+			if restZero(k + 1) {
+				nTrans.Add(1)
+				r.Eval()
+			}
 		}
-		n.blocks = append(n.blocks, nb)
-		nTrans.Add(1)
-		bDFS(n, depth-1, c)
+		if !c.stop() {
+			bDFS(n, depth-len(j.prefix), c)
+		}
 		done.Add(1)
 	})
 	if int(done.Load()) < len(jobs) && !anyViol.Load() {
